@@ -141,7 +141,9 @@ func vLexLE(a, b weight) bool {
 //@   loop 2 invariant forall(j, 0, len(tokens), typeIs(tokens[j], pa.FunctionBlock) ==> forall(k, 0, len(tokens[j].(pa.FunctionBlock).Arguments), tokens[j].(pa.FunctionBlock).Arguments[k] != nil && pa.VNthTok(tokens[j].(pa.FunctionBlock).Arguments[k])))
 //@   loop 2 decreases len(tokens)
 //@   loop 3 invariant rangeindex < len(firstToken.Arguments) && fresh(out)
-//@   loop 3 invariant forall(k, 0, len(nth), pa.VNthTok(nth[k])) && forall(k, 0, len(group), group[k] != nil)
+//@   loop 3 invariant forall(k, 0, len(firstToken.Arguments), firstToken.Arguments[k] != nil && pa.VNthTok(firstToken.Arguments[k]))
+//@   loop 3 invariant forall(k, 0, len(nth), pa.VNthTok(nth[k]))
+//@   loop 3 invariant forall(k, 0, len(group), group[k] != nil)
 //@   loop 3 decreases len(firstToken.Arguments) - rangeindex
 //@   loop 4 invariant rangeindex < len(group) && fresh(out) && fresh(group_) && forall(k, 0, len(group), group[k] != nil)
 //@   loop 4 decreases len(group) - rangeindex
